@@ -842,7 +842,7 @@ def ops_for(b, r, j):
         if c < 4:
             return ("ss", j, r.choice([b"ab", b"Hello", b"0123456789abcdefXYZ", b"q", b"GenICam", b"caf\xc3\xa9"]))
         return ("sml", j)
-    return ("v", j)
+    return (r.choice(ALL_OPS), j)
 
 
 def reg_op(b, r, j):
@@ -864,8 +864,6 @@ def gen_graph(rng, kinds=WIDE, max_nodes=13, max_ops=25, float_ok=True, bad_refs
     b = Builder(rng, float_ok=float_ok, bad_refs=bad_refs)
     r = rng
     # a few leaves first so that references have targets
-    b.make("integer") if r.chance(1, 2) else None
-    b.nodes and None
     lead = ["intreg", "integer"] + (["float"] if "float" in kinds and r.chance(1, 2) else [])
     for k in lead:
         b.make(k)
@@ -890,6 +888,7 @@ def gen_graph(rng, kinds=WIDE, max_nodes=13, max_ops=25, float_ok=True, bad_refs
             if r.chance(1, 2):
                 image[i] = r.choice([0, 1, 2, 3, 255, 128, 127])
     # operations
+    rej = r.chance(1, 4)
     ops = []
     nops = r.range(4, max_ops)
     names = list(range(len(b.nodes)))
@@ -922,8 +921,199 @@ def gen_graph(rng, kinds=WIDE, max_nodes=13, max_ops=25, float_ok=True, bad_refs
                 ops.append(("rr", jj, 4))
             else:
                 ops.append(("rw", jj, bytes(r.bytes(4))))
-        elif c < 94:
+        elif c < 92 and rej:
             ops.append(("rej", r.below(3)))
         elif readable_ops:
             ops.append(("ir", j))
     return dict(nodes=b.nodes, vals0=list(b.vals), base=BASE, image=bytes(image), ops=ops)
+
+
+# ------------------------------------------------------------------ pValue chains --
+def gen_chain(rng):
+    """Integer ->pValue ... ->pValue terminal, every level with pValueCopy targets (value slots or registers
+    over disjoint ranges); set at some level, read everywhere."""
+    b = Builder(rng, float_ok=False, bad_refs=False)
+    r = rng
+    used = 0
+
+    def fresh_reg(L):
+        nonlocal used
+        a = BASE + used
+        used += L
+        rg = dict(addrs=[("addr", ("imm", a))], length=("imm", L), acc="RW", port=None)
+        return b.add(dict(kind="intreg", reg=rg, sign=r.below(2), endian=r.below(2)))
+
+    def fresh_int():
+        j = b.add(dict(kind="integer", vk=("value", b.slot(("i", r.range(-5, 5)))), mn=None, mx=None, inc=None))
+        b.finish_integer(j)
+        return j
+
+    L = r.choice([1, 2, 4, 8])
+    term = fresh_reg(L) if r.chance(3, 4) else fresh_int()
+    chain = [term]
+    copies_all = []
+    for _ in range(r.range(1, 8)):
+        before, after = [], []
+        for _c in range(r.choice([0, 0, 1, 1, 2, 3])):
+            if used + 8 < STR_ZONE and r.chance(1, 3):
+                t = fresh_reg(r.choice([1, 2, 4, 8]))
+            else:
+                t = fresh_int()
+            (before if r.chance(1, 3) else after).append(t)
+            copies_all.append(t)
+        j = b.add(dict(kind="integer", vk=("pvalue", chain[-1], before, after), mn=None, mx=None, inc=None))
+        b.finish_integer(j)
+        chain.append(j)
+        if len(b.nodes) > 20:
+            break
+    extra = []
+    if r.chance(1, 2):
+        extra.append(b.add(dict(kind="boolean", v=("node", chain[-1]), on=1, off=0, on_explicit=False, off_explicit=False, init=False)))
+    if r.chance(1, 2):
+        extra.append(b.add(dict(kind="command", v=("node", chain[-1]), cv=("imm", b.slot(("i", r.choice([1, 7, 100])))))))
+    port = b.add(dict(kind="port"))
+    for n in b.nodes:
+        if "reg" in n:
+            n["reg"]["port"] = port
+    tn = b.nodes[term]
+    if tn["kind"] == "intreg":
+        lo, hi = (-(1 << (8 * L - 1)), (1 << (8 * L - 1)) - 1) if tn["sign"] else (0, min((1 << (8 * L)) - 1, (1 << 63) - 1))
+    else:
+        lo, hi = -(1 << 63), (1 << 63) - 1
+    ops = []
+    for _ in range(r.range(1, 3)):
+        v = r.choice([lo, hi, 0, 1, r.range(lo, hi), r.range(max(lo, -100), min(hi, 100))])
+        if r.chance(1, 6):
+            v = r.choice([hi + 1, lo - 1]) if -(1 << 63) <= lo - 1 and hi + 1 < (1 << 63) else v
+        ops.append(("s", r.choice(chain[1:]), v))
+        for j in chain:
+            if r.chance(2, 3):
+                ops.append(("v", j))
+        for j in copies_all:
+            if r.chance(1, 2):
+                ops.append(("v", j))
+        for j in extra:
+            ops.append(r.choice([("bv", j), ("bs", j, True), ("dn", j), ("ex", j), ("bs", j, False)])
+                       if b.nodes[j]["kind"] == "boolean" else r.choice([("ex", j), ("dn", j)]))
+            ops.append(("v", chain[0]))
+    return dict(nodes=b.nodes, vals0=list(b.vals), base=BASE, image=bytes(r.bytes(IMG)), ops=ops[:40])
+
+
+# ------------------------------------------------------------------ boundary graphs --
+def boundary_graphs():
+    gs = []
+
+    def fin(b, ops, image=None):
+        port = b.add(dict(kind="port"))
+        for n in b.nodes:
+            if "reg" in n:
+                n["reg"]["port"] = port
+        gs.append(dict(nodes=b.nodes, vals0=list(b.vals), base=BASE, image=image or bytes(range(IMG)), ops=ops))
+
+    def integer(b, vk, mn=None, mx=None, inc=None):
+        j = b.add(dict(kind="integer", vk=vk, mn=mn, mx=mx, inc=inc))
+        b.finish_integer(j)
+        return j
+
+    def intreg(b, addrs, L=4, sign=0, endian=0, length=None):
+        return b.add(dict(kind="intreg", reg=dict(addrs=addrs, length=length or ("imm", L), acc="RW", port=None),
+                          sign=sign, endian=endian))
+
+    rng = Rng(0)
+    # 1: pValue with copies before and after, chain of two levels, terminal register
+    b = Builder(rng)
+    t = intreg(b, [("addr", ("imm", BASE + 4))], 2, sign=1, endian=1)
+    c1 = integer(b, ("value", b.slot(("i", 7))))
+    c2 = intreg(b, [("addr", ("imm", BASE + 8))], 4)
+    l1 = integer(b, ("pvalue", t, [c1], [c2]))
+    c3 = integer(b, ("value", b.slot(("i", 0))))
+    l2 = integer(b, ("pvalue", l1, [], [c3]))
+    fin(b, [("v", l2), ("s", l2, -2), ("v", l2), ("v", l1), ("v", t), ("v", c1), ("v", c2), ("v", c3), ("s", l2, 40000),
+            ("v", t), ("v", c2), ("s", l1, 5), ("v", c3), ("v", l2)])
+    # 2: pIndex: duplicate index (first wins), node entries, default
+    b = Builder(rng)
+    sel = integer(b, ("value", b.slot(("i", 1))))
+    a = integer(b, ("value", b.slot(("i", 100))))
+    d = integer(b, ("value", b.slot(("i", 900))))
+    x = integer(b, ("pindex", sel, [(0, ("imm", b.slot(("i", 10)))), (1, ("node", a)), (1, ("imm", b.slot(("i", 11)))),
+                                  (-1, ("imm", b.slot(("i", 12))))], ("node", d)))
+    ops = []
+    for i in (1, 0, -1, 2, 1):
+        ops += [("s", sel, i), ("v", x), ("s", x, 1000 + i), ("v", x), ("v", a), ("v", d)]
+    fin(b, ops)
+    # 3: Boolean with explicit on/off, raw value that is neither, over a register
+    b = Builder(rng)
+    rg = intreg(b, [("addr", ("imm", BASE))], 1)
+    bo = b.add(dict(kind="boolean", v=("node", rg), on=5, off=2, on_explicit=True, off_explicit=True, init=False))
+    bi = b.add(dict(kind="boolean", v=("imm", b.slot(("i", 0))), on=1, off=0, on_explicit=False, off_explicit=False, init=False))
+    fin(b, [("bv", bo), ("bs", bo, True), ("bv", bo), ("v", rg), ("bs", bo, False), ("bv", bo), ("v", rg), ("s", rg, 9),
+            ("bv", bo), ("bv", bi), ("bs", bi, True), ("bv", bi), ("bs", bi, False), ("bv", bi)])
+    # 4: Enumeration: declared / undeclared values, duplicate values, through an Integer
+    b = Builder(rng)
+    rg = intreg(b, [("addr", ("imm", BASE + 16))], 2)
+    en = b.add(dict(kind="enumeration", ents=[("Off", 0, None), ("On", 1, None), ("Auto", 1, f2b(2.5)), ("Hi", 300, None)],
+                    v=("node", rg)))
+    iv = integer(b, ("pvalue", en, [], []))
+    fin(b, [("ce", en), ("cv", en), ("sev", en, 1), ("ce", en), ("sev", en, 7), ("cv", en), ("sev", en, 300), ("ce", en),
+            ("v", rg), ("s", iv, 0), ("ce", en), ("s", iv, 2), ("v", iv), ("s", rg, 77), ("ce", en), ("cv", en), ("v", iv)])
+    # 5: Command over value slot and register, immediate and referenced command value
+    b = Builder(rng)
+    rg = intreg(b, [("addr", ("imm", BASE + 20))], 4)
+    cvn = integer(b, ("value", b.slot(("i", 3))))
+    c1 = b.add(dict(kind="command", v=("node", rg), cv=("node", cvn)))
+    c2 = b.add(dict(kind="command", v=("imm", b.slot(("i", 0))), cv=("imm", b.slot(("i", 1)))))
+    fin(b, [("dn", c1), ("ex", c1), ("dn", c1), ("v", rg), ("s", rg, 0), ("dn", c1), ("s", cvn, 0), ("dn", c1), ("ex", c2),
+            ("dn", c2)])
+    # 6: address = Address + pAddress + pIndex*Offset + pIndex*pOffset + pIndex + embedded knife; pLength
+    b = Builder(rng)
+    pa = integer(b, ("value", b.slot(("i", 8))))
+    ix = integer(b, ("value", b.slot(("i", 2))))
+    po = integer(b, ("value", b.slot(("i", 3))))
+    ln = integer(b, ("value", b.slot(("i", 2))))
+    kn = b.add(dict(kind="intswissknife", embedded=True, knife=dict(vars=[("Va", ix)], consts=[("C0", 4)], exprs=[]),
+                    f=("bin", "*", ("id", "Va"), ("id", "C0"))))
+    rg = intreg(b, [("addr", ("imm", BASE)), ("addr", ("node", pa)), ("index", ("imm", 4), ix), ("index", ("node", po), ix),
+                    ("index", None, ix), ("knife", kn)], length=("node", ln))
+    fin(b, [("ra", rg), ("rl", rg), ("v", rg), ("s", ix, 1), ("ra", rg), ("v", rg), ("s", rg, 0xBEEF), ("rr", rg, 2),
+            ("s", ln, 4), ("rl", rg), ("v", rg), ("s", ix, 1000), ("ra", rg), ("v", rg), ("s", ln, 3), ("v", rg), ("s", rg, 1)])
+    # 7: IntConverter / IntSwissKnife with accessors, shadowing of TO by a variable, constant over variable
+    b = Builder(rng)
+    tg = integer(b, ("value", b.slot(("i", 10))), mn=("imm", b.slot(("i", -5))), mx=("imm", b.slot(("i", 500))), inc=("imm", 4))
+    en = b.add(dict(kind="enumeration", ents=[("A", 3, None), ("B.C", 9, f2b(1.5))], v=("imm", b.slot(("i", 9)))))
+    sk = b.add(dict(kind="intswissknife", knife=dict(vars=[("Va.Min", tg), ("Vb.Max", tg), ("Vc.Inc", tg), ("Vd.Enum.B.C", en),
+                                                            ("Ve", en), ("Vf.Value", tg)],
+                                                     consts=[("C0", 2)], exprs=[("X0", ("bin", "+", ("id", "Va.Min"), ("id", "C0")))]),
+                    f=("bin", "+", ("bin", "+", ("id", "X0"), ("id", "Vb.Max")),
+                       ("bin", "+", ("bin", "*", ("id", "Vc.Inc"), ("id", "Vd.Enum.B.C")), ("bin", "+", ("id", "Ve"), ("id", "Vf.Value"))))))
+    cv = b.add(dict(kind="intconverter", knife=dict(vars=[("Va", tg)], consts=[("C0", 3)], exprs=[]),
+                    fto=("bin", "*", ("id", "FROM"), ("id", "C0")), ffrom=("bin", "-", ("id", "TO"), ("id", "C0")), p=tg))
+    sh = b.add(dict(kind="intconverter", knife=dict(vars=[("TO", en), ("FROM", tg)], consts=[("Va", 1)], exprs=[]),
+                    fto=("bin", "+", ("id", "FROM"), ("int", 1, "dec")), ffrom=("bin", "+", ("id", "TO"), ("int", 0, "dec")), p=tg))
+    fin(b, [("v", sk), ("v", cv), ("s", cv, 7), ("v", tg), ("v", cv), ("v", sh), ("s", sh, 50), ("v", tg), ("mn", sk), ("mx", cv),
+            ("inc", sk), ("s", sk, 1)])
+    return gs
+
+
+# ------------------------------------------------------------------ JSON --
+def to_json(x):
+    if isinstance(x, (bytes, bytearray)):
+        return {"__b": bytes(x).hex()}
+    if isinstance(x, tuple):
+        return {"__t": [to_json(y) for y in x]}
+    if isinstance(x, list):
+        return [to_json(y) for y in x]
+    if isinstance(x, dict):
+        return {k: to_json(v) for k, v in x.items()}
+    return x
+
+
+def from_json(x):
+    if isinstance(x, dict):
+        if "__b" in x and len(x) == 1:
+            return bytes.fromhex(x["__b"])
+        if "__t" in x and len(x) == 1:
+            return tuple(from_json(y) for y in x["__t"])
+        return {k: from_json(v) for k, v in x.items()}
+    if isinstance(x, list):
+        return [from_json(y) for y in x]
+    return x
